@@ -115,6 +115,22 @@ func main() {
 			runOne(treelib.Prog{Len: L, Force: rng.Intn(4) == 0, Prog: toks}, seed*7919+int64(i), out)
 		}
 		out.Close()
+	case "deepgen":
+		// deepgen <n> <cases.ndjson>: programs nested 20..120 levels deep (structs, arrays, nested formats, one nested buffer half way
+		// down); every level reads a leaf before and after its child. Depth-dependent paths: post-processing, range computation through
+		// many levels, gap filling inside and outside the nested buffer, long paths on the jq side.
+		n := kit.Atoi(os.Args[2])
+		out := kit.NewOut(os.Args[3])
+		rng := rand.New(rand.NewSource(seed))
+		for i := 0; i < n; i++ {
+			depths := []int{20, 35, 60, 90, 120}
+			if len(os.Args) > 4 { // deepgen <n> <cases> <k>: only the k shallowest depths (what the TLC trace specs take in reasonable time)
+				depths = depths[:kit.Atoi(os.Args[4])]
+			}
+			depth := depths[i%len(depths)]
+			out.Emit(deepProg(rng, depth, i))
+		}
+		out.Close()
 	case "bigprog":
 		// bigprog <n> <events.ndjson>: trees of 1000..5000 leaves with skipped bits and re-read (overlapping) bits:
 		// size-dependent paths of gap filling and post-processing. Too large for TLC: judged by harness/ref (cross-checked elsewhere).
@@ -122,6 +138,17 @@ func main() {
 		out := kit.NewOut(os.Args[3])
 		rng := rand.New(rand.NewSource(seed))
 		for i := 0; i < n; i++ {
+			if i%4 == 3 { // every fourth case: deep instead of wide (60..120 levels), same judge
+				dp := deepProg(rng, []int{60, 90, 120}[(i/4)%3], i)
+				root, pm := treelib.RunProg(dp, seed*31+int64(i))
+				ev := map[string]any{"what": fmt.Sprintf("program nested %d levels deep, buffer %d bits", len(dp.Prog)/4, dp.Len), "panic": pm, "nnodes": 0, "refwhy": "ok", "refgap": "ok"}
+				if root != nil {
+					nodes := treelib.Flatten(root, false, 0)
+					ev["nnodes"], ev["refwhy"], ev["refgap"] = len(nodes), ref.Why(nodes), ref.GapSig(nodes)
+				}
+				out.Emit(ev)
+				continue
+			}
 			leaves := 1000 + rng.Intn(4000)
 			ws := []int64{1, 1, 2, 3, 8}
 			var toks []treelib.Tok
@@ -157,4 +184,41 @@ func main() {
 	default:
 		kit.Fatalf("unknown mode %q", os.Args[1])
 	}
+}
+
+// deepProg: a program nested depth levels deep (see mode deepgen)
+func deepProg(rng *rand.Rand, depth int, i int) treelib.Prog {
+	ws := []int64{1, 2, 3, 8}
+	w := make([]int64, depth)
+	for k := range w {
+		w[k] = ws[rng.Intn(len(ws))]
+	}
+	root := depth / 2
+	inner := int64(2) // the innermost leaf
+	for k := root; k < depth; k++ {
+		inner += w[k] + 1
+	}
+	var toks []treelib.Tok
+	outer := int64(0)
+	for k := 0; k < depth; k++ {
+		switch {
+		case k == root:
+			toks = append(toks, treelib.Tok{K: "rootstruct", Name: "b", N: inner + int64(rng.Intn(3))})
+		case k%7 == 3:
+			toks = append(toks, treelib.Tok{K: "fmtrest", Name: "b"})
+		case k%2 == 1:
+			toks = append(toks, treelib.Tok{K: "array", Name: "b"})
+		default:
+			toks = append(toks, treelib.Tok{K: "struct", Name: "b"})
+		}
+		toks = append(toks, treelib.Tok{K: "leaf", Name: "a", N: w[k]})
+		if k < root {
+			outer += w[k] + 1
+		}
+	}
+	toks = append(toks, treelib.Tok{K: "leaf", Name: "c", N: 2})
+	for k := depth - 1; k >= 0; k-- {
+		toks = append(toks, treelib.Tok{K: "leaf", Name: "d", N: 1}, treelib.Tok{K: "end"})
+	}
+	return treelib.Prog{Len: outer + int64(rng.Intn(4)), Force: i%7 == 6, Prog: toks}
 }
